@@ -449,6 +449,25 @@ Lemma collector_shortfall_panics : forall collector amount, 0 < amount -> collec
   pay_from_collector collector amount = Panic "insufficient-funds".
 Proof. intros. unfold pay_from_collector. destruct (amount <=? 0) eqn:E; [lia|]. destruct (collector <? amount) eqn:E2; [reflexivity|lia]. Qed.
 
+(* one staked denom with cap <= 1: the credit never exceeds the reward, the collector (which received the reward) covers it *)
+Lemma credit_one_le : forall reward cap, 0 <= reward < 2 ^ 200 -> 0 <= cap <= PREC ->
+  exists c, credit_one reward cap = Ok c /\ 0 <= c <= reward.
+Proof.
+  intros reward cap Hr Hc. unfold credit_one.
+  assert (C : 0 <= chop_round (dec_of_int reward * cap) <= reward * PREC).
+  { apply chop_round_nonneg_bounds; unfold dec_of_int; unfold PREC in *; nia. }
+  assert (R : dec_in_range (chop_round (dec_of_int reward * cap)) = true).
+  { apply dec_in_range_small. rewrite Z.abs_eq by lia. change (2 ^ 315) with (2 ^ 200 * 2 ^ 115).
+    assert (PREC < 2 ^ 115) by reflexivity. assert (0 < 2 ^ 200) by reflexivity. unfold PREC in *. nia. }
+  unfold dmul. rewrite R. cbn [relabel bind]. eexists; split; [reflexivity|].
+  unfold round_int. apply chop_round_nonneg_bounds; lia.
+Qed.
+(* two staked denoms whose caps sum to 1: per-denom rounding credits reward+1, and paying that credit out of a
+   collector that received exactly the reward panics (autocompound / claim / proposer payout) *)
+Lemma overcredit_shortfall_refuted : exists reward cap1 cap2, cap1 + cap2 = PREC /\
+  credit_two reward cap1 cap2 = Ok (reward + 1) /\ pay_from_collector reward (reward + 1) = Panic "insufficient-funds".
+Proof. exists 3, HALF, HALF. split; [reflexivity|]. split; vm_compute; reflexivity. Qed.
+
 (* ------------------------------------------------------------------ upgrade: the only deliberate stop *)
 Lemma upgrade_halt_only_when_due : forall due processed instate h skip,
   is_panic (upgrade_begin due processed instate h skip) = true -> due = true /\ processed = true.
